@@ -84,6 +84,7 @@ class Runner:
         self.opcount = {}
         self.other = {}        # signatures of the sibling property seen (not reported here)
         self.segments = 0
+        self.rediscovered = set()
 
     def harness(self, mode, args, env=None):
         self.n += 1
@@ -150,11 +151,11 @@ def row_in(r):
 
 
 # ------------------------------------------------------------------------------------------------
-def mc_with_rediscovery(ctx, run, base, label, invs, consts=None, timeout=900, xmx="3g"):
+def mc_with_rediscovery(ctx, run, base, label, invs, consts=None, timeout=900, xmx="3g", start=()):
     """model-check; replay each counterexample on the real code; enable the taint of a reproduced
     known finding and continue; an unknown reproduced signature is a violation, a counterexample the
     code does not reproduce is model drift."""
-    enabled = set()
+    enabled = set(start)        # taints of findings this very run has already rediscovered in a smaller configuration
     hits = []
     for it in range(8):
         cfg = gen_cfg(ctx, base, "%s_%d.cfg" % (label, it), known=enabled, invs=invs, consts=consts)
@@ -165,6 +166,7 @@ def mc_with_rediscovery(ctx, run, base, label, invs, consts=None, timeout=900, x
                 raise C.ToolError("vacuity gate: actions never taken in %s: %s" % (base, r["zero_coverage"]))
             ctx.extra.setdefault("action_coverage", {})[label] = {k: v for k, v in r.get("actions", {}).items() if not k.endswith(("!Init",))}
             ctx.extra.setdefault("mc_taints_enabled", {})[label] = sorted(enabled)
+            run.rediscovered |= enabled
             return hits
         if not cex:
             C.log(r["output"][-3000:])
@@ -287,8 +289,8 @@ def run_prop(ctx):
     if ctx.pid == "C10":
         mc_hits["noupper"] = mc_with_rediscovery(ctx, run, "MC_Overlay_noupper.cfg", "noupper", invs)
     if not quick:
-        mc_hits["seq2"] = mc_with_rediscovery(ctx, run, "MC_Overlay_seq2.cfg", "seq2", invs, timeout=1200, xmx="8g")
-        mc_hits["thorough"] = mc_with_rediscovery(ctx, run, "MC_Overlay_thorough.cfg", "thorough", invs, timeout=1200, xmx="8g")
+        mc_hits["seq2"] = mc_with_rediscovery(ctx, run, "MC_Overlay_seq2.cfg", "seq2", invs, timeout=1500, xmx="8g", start=set(run.rediscovered))
+        mc_hits["thorough"] = mc_with_rediscovery(ctx, run, "MC_Overlay_thorough.cfg", "thorough", invs, timeout=1500, xmx="8g", start=set(run.rediscovered))
     ctx.extra["mc_counterexamples"] = mc_hits
     # --- 2. scenarios exported from TLC (simulation walks of the I spec), replayed on the real code
     nwalk = 150 if quick else 1500
